@@ -87,11 +87,18 @@ fn is_pattern_char(c: char) -> bool {
 }
 
 fn parse_timestamp_component(dt: &chrono::DateTime<chrono::Utc>, format_str: &str) -> String {
-    dt.format(format_str).to_string()
+    // chrono writes years above 9999 with a sign ("+10000"), which is not a number any more
+    dt.format(format_str)
+        .to_string()
+        .trim_start_matches('+')
+        .to_string()
 }
 
 pub fn resolve_timestamp(pattern: &str, timestamp: u64) -> Result<String> {
-    let dt = chrono::DateTime::from_timestamp(timestamp as i64, 0)
+    // a value above i64::MAX must not wrap around to a date before 1970
+    let dt = i64::try_from(timestamp)
+        .ok()
+        .and_then(|seconds| chrono::DateTime::from_timestamp(seconds, 0))
         .ok_or_else(|| ZervError::InvalidFormat("Invalid timestamp".to_string()))?;
 
     // Handle compact patterns directly without tokenization
